@@ -22,6 +22,19 @@ import (
 //      duplicate (continue behind a comma-ok map lookup).
 // Not decided: that the elements themselves are usable (non-empty secret bytes — C11.R5 covers LoadRef).
 
+// seenSetOfLoop: the map of a comma-ok lookup is the loop's own "already added" set — the loop inserts into it. A
+// lookup in a table filled elsewhere ("secrets that could not be loaded") is a filter, not a duplicate test.
+func seenSetOfLoop(lk *ssa.Lookup, body map[*ssa.BasicBlock]bool) bool {
+	for b := range body {
+		for _, ins := range b.Instrs {
+			if mu, ok := ins.(*ssa.MapUpdate); ok && (mu.Map == lk.X || sameLoad(mu.Map, lk.X)) {
+				return true
+			}
+		}
+	}
+	return false
+}
+
 func isAccumulator(v ssa.Value, seen map[ssa.Value]bool) (bool, string, []*ssa.Call) {
 	var apps []*ssa.Call
 	ok := true
@@ -215,7 +228,7 @@ func checkInstalledHMACConfigured(c *Ctx, rule string) {
 							dedupe := false
 							for _, pc := range dominatingConds(bb, lh) {
 								if ex, isEx := pc.Cond.(*ssa.Extract); isEx && pc.Val {
-									if lk, isLk := ex.Tuple.(*ssa.Lookup); isLk && lk.CommaOk {
+									if lk, isLk := ex.Tuple.(*ssa.Lookup); isLk && lk.CommaOk && seenSetOfLoop(lk, body) {
 										dedupe = true
 									}
 								}
@@ -223,7 +236,7 @@ func checkInstalledHMACConfigured(c *Ctx, rule string) {
 							// the back edge may also be the conditional edge itself
 							if ifi, isIf := bb.Instrs[len(bb.Instrs)-1].(*ssa.If); isIf && si == 0 {
 								if ex, isEx := ifi.Cond.(*ssa.Extract); isEx {
-									if lk, isLk := ex.Tuple.(*ssa.Lookup); isLk && lk.CommaOk {
+									if lk, isLk := ex.Tuple.(*ssa.Lookup); isLk && lk.CommaOk && seenSetOfLoop(lk, body) {
 										dedupe = true
 									}
 								}
